@@ -58,7 +58,7 @@ def model_conf(d, rnd, layout):
                 else:
                     lines.append(rnd.choice(["", "  ", "\t", "      "]) + ptxt)
         else:
-            lines.append("%s%s%s=%s%s%s" % (ind, k, sp1, sp2, v, rnd.choice(["", " ", "  # trailing comment", " # p.x, r.y"]) if k[0] in "rp" else ""))
+            lines.append("%s%s%s=%s%s%s" % (ind, k, sp1, sp2, v, rnd.choice(["", " ", "  # trailing comment", " # p.x, r.y", " # see issue #31", "  #a#b"]) if k[0] in "rp" else ""))
             # a dangling continuation mark after a complete value, ended by a blank or comment line: the next
             # definition must not be glued to this one
             if rnd.random() < 0.12:
